@@ -327,6 +327,23 @@ struct Inner {
     owned: Vec<Span>,
 }
 
+/// Drops the frames above a floor when it is dropped itself: stands in for guards that user code
+/// keeps on its stack and that a panic unwinds through (the harness keeps them in `ctx.frames`).
+struct FrameCloser(*mut WorkerCtx, usize);
+impl Drop for FrameCloser {
+    fn drop(&mut self) {
+        // SAFETY: same thread; the outer reference is not used while the unwinding runs
+        let ctx = unsafe { &mut *self.0 };
+        while ctx.frames.len() > self.1 {
+            let f = ctx.frames.pop();
+            drop(f);
+        }
+    }
+}
+
+/// payload of the panics the harness raises on behalf of user code
+struct UserPanic;
+
 fn run_plan() -> AOutcome {
     let plan = CUR_CALL.with(|c| c.get());
     let ctxp = CUR_CTX.with(|c| c.get());
@@ -337,6 +354,16 @@ fn run_plan() -> AOutcome {
     // adapter call, and the outer reference is not used while the call runs.
     let (plan, ctx) = unsafe { (&*plan, &mut *ctxp) };
     plan.inner_start_ns.set(now_ns());
+    if plan.outcome == AOutcome::Panic {
+        // the guards and local spans the steps leave open die in the unwinding, innermost first
+        let _closer = FrameCloser(ctxp, ctx.frames.len());
+        for st in &plan.steps {
+            exec_op(ctx, st);
+        }
+        CUR_CALL.with(|c| c.set(plan as *const CallPlan));
+        plan.inner_done_ns.set(now_ns());
+        std::panic::resume_unwind(Box::new(UserPanic));
+    }
     for st in &plan.steps {
         exec_op(ctx, st);
     }
@@ -363,6 +390,20 @@ impl Stream for Inner {
             AOutcome::Pending => Poll::Pending,
             AOutcome::End => Poll::Ready(None),
             _ => Poll::Ready(Some(7)),
+        }
+    }
+    /// an honest hint from the script of the call that is about to run: adapters are free to
+    /// consult it, and a stream that is at its end says so before its last poll
+    fn size_hint(&self) -> (usize, Option<usize>) {
+        let plan = CUR_CALL.with(|c| c.get());
+        if plan.is_null() {
+            return (0, None);
+        }
+        // SAFETY: see `run_plan`
+        match unsafe { &*plan }.outcome {
+            AOutcome::End => (0, Some(0)),
+            AOutcome::Value => (1, None),
+            _ => (0, None),
         }
     }
 }
@@ -664,7 +705,7 @@ pub fn exec_op(ctx: &mut WorkerCtx, op: &Op) {
             let saved_ctx = CUR_CTX.with(|c| c.replace(ctx as *mut WorkerCtx));
             let waker = futures::task::noop_waker();
             let mut cx = Context::from_waker(&waker);
-            let got = match (&mut obj, method) {
+            let got = std::panic::catch_unwind(std::panic::AssertUnwindSafe(|| match (&mut obj, method) {
                 (AdapterObj::F(f), AMethod::Poll) => match f.as_mut().poll(&mut cx) {
                     Poll::Pending => AOutcome::Pending,
                     Poll::Ready(_) => AOutcome::Value,
@@ -688,6 +729,16 @@ pub fn exec_op(ctx: &mut WorkerCtx, op: &Op) {
                     }
                 }
                 _ => AOutcome::Pending,
+            }));
+            let got = match got {
+                Ok(g) => g,
+                Err(e) if e.is::<UserPanic>() => AOutcome::Panic,
+                Err(e) => {
+                    CUR_CALL.with(|c| c.set(saved_call));
+                    CUR_CTX.with(|c| c.set(saved_ctx));
+                    lock(&ADAPTERS).as_mut().unwrap().insert(*a, obj);
+                    std::panic::resume_unwind(e)
+                }
             };
             CUR_CALL.with(|c| c.set(saved_call));
             CUR_CTX.with(|c| c.set(saved_ctx));
@@ -727,6 +778,36 @@ pub fn exec_op(ctx: &mut WorkerCtx, op: &Op) {
             let obj = lock(&ADAPTERS).as_mut().unwrap().remove(a);
             drop(obj);
         }
+        Op::Unwind { steps } => {
+            set_result(ix, OpResult { t0, t1: now_ns(), sys0, closures: 0, kind: ResKind::None, done: true });
+            let floor = ctx.frames.len();
+            let ctxp = ctx as *mut WorkerCtx;
+            // what user code does when it panics inside tracing scopes: the guards and local spans
+            // that are still open are dropped, innermost first, while the thread is panicking;
+            // the caller contains the panic. The harness keeps guards in `ctx.frames` rather than
+            // on the Rust stack, so a stack object drops them during the unwinding.
+            let r = std::panic::catch_unwind(std::panic::AssertUnwindSafe(|| {
+                let _closer = FrameCloser(ctxp, floor);
+                let ctx = unsafe { &mut *ctxp };
+                for st in steps.iter() {
+                    exec_op(ctx, st);
+                }
+                // no panic hook output; `std::thread::panicking()` is true while unwinding
+                std::panic::resume_unwind(Box::new(UserPanic));
+            }));
+            let ctx = unsafe { &mut *ctxp };
+            if let Err(e) = r {
+                if !e.is::<UserPanic>() {
+                    // a panic that came out of the library or the harness: not ours to swallow
+                    std::panic::resume_unwind(e);
+                }
+            }
+            let eix = ctx.next_flat;
+            ctx.next_flat += 1;
+            set_result(ix, OpResult { t0, t1: now_ns(), sys0, closures: 0, kind: ResKind::None, done: true });
+            set_result(eix, OpResult { t0, t1: now_ns(), sys0, closures: 0, kind: ResKind::None, done: true });
+            return;
+        }
         Op::Reent { host, steps } => {
             set_result(ix, OpResult { t0, t1: now_ns(), sys0, closures: 0, kind: ResKind::None, done: true });
             let ctxp = ctx as *mut WorkerCtx;
@@ -741,19 +822,42 @@ pub fn exec_op(ctx: &mut WorkerCtx, op: &Op) {
                 }
             };
             let pv = |k0: u32, n: u8| -> Vec<(String, String)> { (k0..k0 + n as u32).map(|k| (key(k), val(k))).collect() };
+            // half of the re-entrant closures return a lazy iterator: the nested steps run when the
+            // library asks for the first pair, not while the closure itself runs
+            struct LazyProps<F: FnMut()> {
+                run: Option<F>,
+                items: std::vec::IntoIter<(String, String)>,
+            }
+            impl<F: FnMut()> Iterator for LazyProps<F> {
+                type Item = (String, String);
+                fn next(&mut self) -> Option<(String, String)> {
+                    if let Some(mut f) = self.run.take() {
+                        f();
+                    }
+                    self.items.next()
+                }
+            }
             let c1 = CLOSURES.load(Ordering::SeqCst);
             match &**host {
                 Op::AddProps { span, n, k0 } => {
                     let sp = lock(&SPANS).as_mut().unwrap().remove(span).expect("span slot empty");
                     sp.add_properties(|| {
-                        run();
-                        pv(*k0, *n)
+                        if *k0 % 2 == 1 {
+                            LazyProps { run: Some(run), items: pv(*k0, *n).into_iter() }
+                        } else {
+                            run();
+                            LazyProps { run: None, items: pv(*k0, *n).into_iter() }
+                        }
                     });
                     put_span(*span, sp);
                 }
                 Op::LAddProps { n, k0 } => LocalSpan::add_properties(|| {
-                    run();
-                    pv(*k0, *n)
+                    if *k0 % 2 == 1 {
+                        LazyProps { run: Some(run), items: pv(*k0, *n).into_iter() }
+                    } else {
+                        run();
+                        LazyProps { run: None, items: pv(*k0, *n).into_iter() }
+                    }
                 }),
                 Op::LWithProps { n, k0 } => {
                     let taken = match ctx.frames.last_mut() {
@@ -763,8 +867,12 @@ pub fn exec_op(ctx: &mut WorkerCtx, op: &Op) {
                     let at = ctx.frames.len() - 1;
                     if let Some(sp) = taken {
                         let sp = sp.with_properties(|| {
-                            run();
-                            pv(*k0, *n)
+                            if *k0 % 2 == 1 {
+                                LazyProps { run: Some(run), items: pv(*k0, *n).into_iter() }
+                            } else {
+                                run();
+                                LazyProps { run: None, items: pv(*k0, *n).into_iter() }
+                            }
                         });
                         let ctx = unsafe { &mut *ctxp };
                         if let Some(RFrame::Local(slot)) = ctx.frames.get_mut(at) {
@@ -783,15 +891,23 @@ pub fn exec_op(ctx: &mut WorkerCtx, op: &Op) {
                         }
                     };
                     let sp = sp.with_properties(|| {
-                        run();
-                        pv(*k0, *np)
+                        if *k0 % 2 == 1 {
+                            LazyProps { run: Some(run), items: pv(*k0, *np).into_iter() }
+                        } else {
+                            run();
+                            LazyProps { run: None, items: pv(*k0, *np).into_iter() }
+                        }
                     });
                     put_span(*l, sp);
                 }
                 Op::ChildLocal { l, np, k0 } => {
                     let sp = Span::enter_with_local_parent(sname(*l)).with_properties(|| {
-                        run();
-                        pv(*k0, *np)
+                        if *k0 % 2 == 1 {
+                            LazyProps { run: Some(run), items: pv(*k0, *np).into_iter() }
+                        } else {
+                            run();
+                            LazyProps { run: None, items: pv(*k0, *np).into_iter() }
+                        }
                     });
                     put_span(*l, sp);
                 }
@@ -800,8 +916,12 @@ pub fn exec_op(ctx: &mut WorkerCtx, op: &Op) {
                     ctx.frames.push(RFrame::Local(None));
                     let at = ctx.frames.len() - 1;
                     let sp = sp.with_properties(|| {
-                        run();
-                        pv(*k0, *np)
+                        if *k0 % 2 == 1 {
+                            LazyProps { run: Some(run), items: pv(*k0, *np).into_iter() }
+                        } else {
+                            run();
+                            LazyProps { run: None, items: pv(*k0, *np).into_iter() }
+                        }
                     });
                     let ctx = unsafe { &mut *ctxp };
                     if let Some(RFrame::Local(slot)) = ctx.frames.get_mut(at) {
